@@ -60,11 +60,11 @@ def gen_case(seed, idx, n_ops):
         elif k < 0.95:
             op = {"o": "discuss", "t": r.choice(["past", "family", "work", "dreams"])}
         elif k < 0.965:
-            op = {"o": r.choice(["rel_roundtrip", "wallet_roundtrip"])}
+            op = {"o": r.choice(["rel_roundtrip", "wallet_roundtrip", "inv_roundtrip", "inv_roundtrip", "shop_roundtrip"])}
         else:
             n, s = r.randint(0, 4), r.randint(1, 8)
             op = {"o": "roll", "n": n, "sides": s, "mod": r.choice([0, 0, r.randint(-5, 9)]),
-                  "outs": [r.randint(1, s) for _ in range(n)]}
+                  "outs": [r.randint(1, s) for _ in range(n)], "blanks": r.choice([0, 0, 1, 2, 3])}
         case["ops"].append(op)
     return case
 
@@ -146,13 +146,21 @@ def real_run(case):
             elif o == "wallet_roundtrip":
                 w2 = Wallet.from_dict(json.loads(json.dumps(w.to_dict())))
                 w._gold = w2.gold
+            elif o == "inv_roundtrip":
+                # the sequence goes on with the rebuilt object
+                inv = Inventory.from_dict(json.loads(json.dumps(inv.to_dict())))
+            elif o == "shop_roundtrip":
+                shop = Shop.from_dict(json.loads(json.dumps(shop.to_dict())))
             elif o == "roll":
                 outs = list(op["outs"])
                 orig = dice.random.randint
                 dice.random.randint = lambda lo, hi: outs.pop(0)
                 try:
                     m = op["mod"]
-                    ret = dice.roll(f"{op['n']}d{op['sides']}" + (f"{m:+d}" if m else ""))
+                    b = op.get("blanks", 0)
+                    sp = " " if b else ""
+                    mod = (f"{sp}{'+' if m > 0 else '-'}{sp if b > 1 else ''}{abs(m)}" if m else "")
+                    ret = dice.roll((" " if b == 3 else "") + f"{op['n']}d{op['sides']}" + mod + ("\t" if b == 3 else ""))
                 finally:
                     dice.random.randint = orig
         except Exception as e:  # noqa
@@ -227,6 +235,8 @@ def invariants(case, real):
             fail("a threshold event fired without add_trust")
         if o == "rel_roundtrip" and st["rel"][:4] != prev["rel"][:4]:
             fail("Relationship to_dict/from_dict changed the object")
+        if o in ("inv_roundtrip", "shop_roundtrip") and (st["items"], st["shop"]) != (prev["items"], prev["shop"]):
+            fail(f"{o}: to_dict/from_dict changed the object")
         if o == "wallet_roundtrip" and st["gold"] != prev["gold"]:
             fail("Wallet to_dict/from_dict changed the object")
         if o == "roll" and isinstance(st["ret"], int):
